@@ -154,6 +154,8 @@ class C09(Check):
             for mode in range(d):
                 for svd in SVDS:
                     yield dict(base, alg="tr", rank=list(rk) + [rk[0]], mode=mode, svd=svd)
+                if fam == "generic":
+                    yield dict(base, alg="tr", rank=list(rk) + [rk[0]], mode=mode, svd=SVDS[mode % len(SVDS)], api="class")
 
         # ---- HOOI with the stopping test switched off (tol=0 / None): core and factors must still belong together
         for rk in itertools.product(*[range(1, n + 2) for n in shape]):
@@ -386,7 +388,12 @@ class C09(Check):
         status = tr_sufficient(T, rank, mode)
         ctx.count("calls:tensor_ring")
         try:
-            res = tensor_ring(self._x(case, T), rank=self._rank_arg(case, rank), mode=mode, svd=svd)
+            if case.get("api") == "class":  # the estimator interface must reach the same decomposition (every start mode, every svd)
+                from tensorly.decomposition import TensorRing
+
+                res = TensorRing(rank=self._rank_arg(case, rank), mode=mode, svd=svd).fit_transform(self._x(case, T))
+            else:
+                res = tensor_ring(self._x(case, T), rank=self._rank_arg(case, rank), mode=mode, svd=svd)
             cores = [np.asarray(f) for f in res.factors]
         except ValueError as e:
             if status == "inadmissible":
